@@ -635,16 +635,56 @@ func (e *Engine) registerIntrinsics() {
 		return Tuple{Ptr(slot), Iface{}}
 	}
 	in["(*os.File).Close"] = func(r *Run, fr *frame, a []Value) Value { return Iface{} }
-	in[G+"verifFSKinds"] = func(r *Run, fr *frame, a []Value) Value {
-		return SliceV{Data: append([]Value{}, r.fsKinds...)}
-	}
-	in[G+"verifFSCalls"] = func(r *Run, fr *frame, a []Value) Value {
-		return SliceV{Data: append([]Value{}, r.fsCalls...)}
+	for _, hp := range harnessPkgs {
+		in[hp+"verifFSKinds"] = func(r *Run, fr *frame, a []Value) Value {
+			return SliceV{Data: append([]Value{}, r.fsKinds...)}
+		}
+		in[hp+"verifFSCalls"] = func(r *Run, fr *frame, a []Value) Value {
+			return SliceV{Data: append([]Value{}, r.fsCalls...)}
+		}
 	}
 	in["bufio.NewWriter"] = func(r *Run, fr *frame, a []Value) Value {
 		slot := new(Value)
 		*slot = &bufWriterObj{w: a[0].(Iface)}
 		return Ptr(slot)
+	}
+	in["(*bufio.Writer).Write"] = func(r *Run, fr *frame, a []Value) Value {
+		b := (*a[0].(Ptr)).(*bufWriterObj)
+		var s StrV
+		switch p := a[1].(type) {
+		case BytesOf:
+			s = p.S
+		case SliceV:
+			var bs []*Term
+			for _, e := range p.Data {
+				bs = append(bs, e.(IntV).term(8))
+			}
+			s = strFromBytes(bs)
+		default:
+			panic(unsupported("bufio.Writer.Write of %T", a[1]))
+		}
+		b.buf = concatStr(b.buf, s)
+		return Tuple{r.strLen(s), Iface{}}
+	}
+	// fmt.Fprintln = Sprintln + one Write
+	in["fmt.Fprintln"] = func(r *Run, fr *frame, a []Value) Value {
+		w := a[0].(Iface)
+		s := in["fmt.Sprintln"](r, fr, []Value{a[1]}).(StrV)
+		if p, ok := w.V.(Ptr); ok && p != nil {
+			if b, ok := (*p).(*bufWriterObj); ok {
+				b.buf = concatStr(b.buf, s)
+				return Tuple{r.strLen(s), Iface{}}
+			}
+		}
+		m := r.eng.prog.LookupMethod(w.T, nil, "Write")
+		if m == nil {
+			panic(unsupported("Write method not found on %v", w.T))
+		}
+		res := r.callFunc(fr, m, []Value{w.V, BytesOf{S: s}}, nil)
+		if r.cs != nil && strings.Contains(r.eng.sched, "wyield") {
+			r.yield()
+		}
+		return res
 	}
 	in["(*bufio.Writer).WriteString"] = func(r *Run, fr *frame, a []Value) Value {
 		b := (*a[0].(Ptr)).(*bufWriterObj)
